@@ -735,6 +735,26 @@ func (sc *SpecCtx) call(x *SX) Val {
 	case "bytesEqual", "bytes.Equal":
 		need(2)
 		return sc.bytesEqual(sc.eval(args[0]), sc.eval(args[1]))
+	case "aminoDecoded":
+		// aminoDecoded(T, bz): the value amino.Unmarshal(bz, &x) stores in x of type T
+		// (the same uninterpreted function the extern model of amino.Unmarshal uses)
+		need(2)
+		if args[0].K != "id" && args[0].K != "sel" {
+			sc.fail(x, "type name expected")
+		}
+		tn := args[0].Op
+		if args[0].K == "sel" {
+			tn = args[0].Args[0].Op + "." + args[0].Op
+		}
+		ty := sc.lookupType(tn)
+		bz := sc.eval(args[1])
+		heapOf := func(comp, srt string) Term {
+			if sc.hp != nil {
+				return sc.hp.term(comp, srt)
+			}
+			return vc.heapGet(sc.old, comp, srt)
+		}
+		return Val{Ty: ty, T: vc.pureApp("amino.decode."+mangle(typeKey(vc.resolve(ty))), []Val{bz}, ty, heapOf)}
 	}
 	// conversions T(x)
 	if fn.K == "id" || name != "" {
@@ -750,6 +770,45 @@ func (sc *SpecCtx) call(x *SX) Val {
 				avs = append(avs, sc.eval(a))
 			}
 			return sc.applySpecFunc(sf, avs)
+		}
+	}
+	// lemma application: the instance (requires ==> ensures) is a theorem proved by the
+	// lemma's own obligations; it is added as an assumption here and the call is `true`
+	if fn.K == "id" {
+		for _, l := range vc.eng.contracts.Lemmas {
+			if l.Name != name {
+				continue
+			}
+			if len(args) != len(l.Params) {
+				sc.fail(x, "wrong number of lemma arguments")
+			}
+			lsc := *sc
+			lsc.pkg = vc.eng.pkgTypes(l.Pkg, sc.pkg)
+			lsc.vars = map[string]Val{}
+			ground := sc.hp == nil
+			for i, p := range l.Params {
+				a := sc.eval(args[i])
+				a = lsc.coerce(a, lsc.lookupType(p.Type))
+				if strings.Contains(a.T.S, "q_") || strings.Contains(a.T.S, "p!") {
+					ground = false
+				}
+				lsc.vars[p.Name] = a
+			}
+			var req, ens []Term
+			for _, r := range l.Requires {
+				req = append(req, lsc.evalBool(r.X))
+			}
+			for _, en := range l.Ensures {
+				ens = append(ens, lsc.evalBool(en.X))
+			}
+			inst := implies(and(req...), and(ens...))
+			vc.eng.markLemmaUsed(l)
+			if !ground {
+				return Val{Ty: specBool, T: inst}
+			}
+			vc.assert(inst)
+			vc.note("lemma " + l.Name + " used (proved by its own obligations in the same check)")
+			return Val{Ty: specBool, T: tTrue}
 		}
 	}
 	// pure Go function / method by contract
